@@ -21,7 +21,11 @@ import (
 	"verif/harness/c09"
 	"verif/harness/c10"
 	"verif/harness/c08dns"
+	"verif/harness/c08ndp"
+	"verif/harness/c13"
+	"verif/harness/c14"
 	"verif/harness/c15"
+	"verif/harness/c19"
 	"verif/harness/c17"
 	"verif/harness/core"
 )
@@ -38,7 +42,11 @@ var runners = map[string]core.Runner{
 	"C08": c08.Runner,
 	"C09": c09.Runner,
 	"C10": c10.Runner,
+	"C13": c13.Runner,
+	"C14": c14.Runner,
 	"C15": c15.Runner,
+	"C19": c19.Runner,
+	"C08ndp": c08ndp.Runner,
 	"C17": c17.Runner,
 	"C08dns": c08dns.Runner,
 }
